@@ -13,6 +13,7 @@ import (
 	"time"
 
 	"github.com/jig/lisp"
+	"github.com/jig/lisp/lib/call"
 	. "github.com/jig/lisp/types"
 )
 
@@ -63,7 +64,20 @@ var wallPrograms = []string{
 	// caller's timeout), none can park the evaluation beyond its context
 	"(let [f (future (sleep 100000))] (do (future-cancel f) (sleep 3) (try (deref f) (catch e nil)) (try (deref f) (catch e nil)) (try (deref f) (catch e nil)) (spin 0)))",
 	"(do (future-cancel bgspin) (sleep 3) (try (deref bgspin) (catch e nil)) (try (deref bgspin) (catch e nil)) (future-cancel bgf) (sleep 3) (try (deref bgf) (catch e nil)) (try (deref bgf) (catch e nil)) (spin 0))",
+	// a future whose body sits in an embedder call that does not watch any context (`hold!`: returns only when the case is
+	// over): waiting for it — also after future-cancel, also through a second future — ends with the WAITER's context
+	"(deref (future (hold! 0)))",
+	"(let [f (future (hold! 0))] (do (sleep 4) (future-cancel f) (deref f)))",
+	"(let [f (future (hold! 0))] (do (sleep 4) (future-cancel f) (sleep 3) (try (deref f) (catch e nil)) (deref f)))",
+	"(let [f (future (hold! 0)) g (future (deref f))] (do (sleep 4) (future-cancel f) (deref g)))",
+	// a CROWD of futures of another evaluation (another context, which outlives this one) is still running: starting a
+	// future, and everything else, goes on as if they were not there
+	"!crowd (do (def probe (future (+ 1 2))) (deref probe) (spin 0))",
+	"!crowd (do (future (tick 0)) (sleep 100000))",
+	"!crowd (deref (future (sleep 100000)))",
 }
+
+const wallCrowdQuick, wallCrowdThorough = 6000, 24000
 
 const wallDefs = `(do
  (def spin (fn [n] (spin (+ n 1))))
@@ -90,7 +104,11 @@ func (e *cancelWallEngine) generate(r *rng, n int, tier string, emit func(string
 		if strings.HasPrefix(wallPrograms[p], "!cancel ") {
 			kind = "cancel"
 		}
-		emit(fmt.Sprintf("%s after=%dms prog=%d", kind, 5+r.intn(40), p))
+		suffix := ""
+		if strings.HasPrefix(wallPrograms[p], "!crowd ") && tier == "thorough" && r.intn(3) == 0 {
+			suffix = fmt.Sprintf(" crowd=%d", wallCrowdThorough)
+		}
+		emit(fmt.Sprintf("%s after=%dms prog=%d%s", kind, 5+r.intn(40), p, suffix))
 	}
 }
 
@@ -191,7 +209,11 @@ func (e *cancelWallEngine) run(payload string) string {
 		return e.runWindow(ms)
 	}
 	var kind string
-	var afterMs, p int
+	var afterMs, p, crowd int
+	if i := strings.Index(payload, " crowd="); i >= 0 {
+		fmt.Sscanf(payload[i:], " crowd=%d", &crowd)
+		payload = payload[:i]
+	}
 	if _, err := fmt.Sscanf(strings.ReplaceAll(payload, "ms", ""), "%s after=%d prog=%d", &kind, &afterMs, &p); err != nil || p >= len(wallPrograms) {
 		return "bad-case"
 	}
@@ -210,9 +232,33 @@ func (e *cancelWallEngine) run(payload string) string {
 	if _, err := lisp.EVAL(setupCtx, defs, env); err != nil {
 		return "setup-error"
 	}
-	ast, err := lisp.READ(strings.TrimPrefix(wallPrograms[p], "!cancel "), nil, env)
+	// hold!: an embedder function that watches no context; it returns when the case is over
+	release := make(chan struct{})
+	defer close(release)
+	call.CallOverrideFN(env, "hold!", func(n int) (MalType, error) { <-release; return n, nil })
+	progText := strings.TrimPrefix(strings.TrimPrefix(wallPrograms[p], "!cancel "), "!crowd ")
+	ast, err := lisp.READ(progText, nil, env)
 	if err != nil {
 		return "setup-error"
+	}
+	if strings.HasPrefix(wallPrograms[p], "!crowd ") {
+		n := wallCrowdQuick
+		if crowd > 0 {
+			n = crowd
+		}
+		mk, err := lisp.READ(fmt.Sprintf("(do (def crowd (map (fn [i] (future (hold! i))) (range 0 %d))) (count crowd))", n), nil, env)
+		if err != nil {
+			return "setup-error"
+		}
+		made := make(chan error, 1)
+		go func() { _, err := lisp.EVAL(setupCtx, mk, env); made <- err }()
+		select {
+		case err := <-made:
+			if err != nil {
+				return "setup-error"
+			}
+		case <-time.After(4 * time.Second): // the crowd could not even be started: go on, whatever is there is the crowd
+		}
 	}
 	if strings.Contains(wallPrograms[p], "bgf") || strings.Contains(wallPrograms[p], "bgspin") {
 		// ANOTHER evaluation (no deadline of its own; it ends with the case) is already waiting on the same futures:
